@@ -617,6 +617,11 @@ def guard_dominates(fn, write_stmt, value_names, marker_ok, par):
                         break
                     if isinstance(s, ast.If) and s.body and isinstance(s.body[-1], ast.Return) and not s.orelse:
                         for c in or_leaves(s.test):
+                            # `v and v.startswith(marker)`: a None-safe spelling of the same filter
+                            if isinstance(c, ast.BoolOp) and isinstance(c.op, ast.And) and isinstance(c.values[-1], ast.Call) \
+                                    and isinstance(c.values[-1].func, ast.Attribute) and isinstance(c.values[-1].func.value, ast.Name) \
+                                    and all(isinstance(v, ast.Name) and v.id == c.values[-1].func.value.id for v in c.values[:-1]):
+                                c = c.values[-1]
                             if isinstance(c, ast.Call) and isinstance(c.func, ast.Attribute) and c.func.attr == 'startswith' \
                                     and isinstance(c.func.value, ast.Name) and c.args and marker_ok(c.args[0]):
                                 seen.add(c.func.value.id)
